@@ -34,6 +34,12 @@ CHECKS = {
     "C08": ("exploration", "bounded-exhaustive enumeration of names printed from compositions under 4 configurations of the global symbol tables",
             "All singles, all ordered pairs (every adjacent symbol pair) and a family of triples of the configured chemical symbols x counts x ortho/para labels x surface prefixes/groups x charges are printed to names; Species(name) must give back exactly the composition, charge, phase, gas-phase counterpart, mass number, is_atom and (under replacement) the rewritten name; grain symbols with groups, electron spellings, pseudo-element affixes and foreign-character insertions (must raise) are enumerated as well. One fresh process per configuration slice.",
             "Only names whose intended tokenisation is the unique (or unique fewest-token) reading are judged; mass numbers from my own isotope table.", "DESIGN.md §2 C08"),
+    "C09": ("exploration", "bounded-exhaustive enumeration of species sets over naming conventions; cross-artefact comparison",
+            "All subsets (size <=4) of a pool covering the naming conventions (charges, ortho/para, surface under two prefixes, grains with groups, excited and cyclic species, both electron spellings), entered through reactions and through required_species, x 4 back-ends: macros are a bijection onto 0..NSPECIES-1, identifiers legal and distinct, two spellings give one slot, and naunet_macros.h, constant_indexes.py, constants.py, the NetworkConfiguration summary, the render command's summary and naunet_enzo.h agree in count and order.",
+            "Species identity of the reference is stated in the evidence assumptions; render-command and Enzo artefacts are checked on an index-determined slice.", "DESIGN.md §2 C09"),
+    "C10": ("exploration", "exhaustive enumeration of the configuration space; g++ -fsyntax-only of every rendered translation unit against an API shim",
+            "format-set x grain model x back-end x shielding tables x thermal: each configuration renders a probe network holding one reaction of every type the combination can produce (combinations refused in Python are recorded) and every src/*.cpp must pass g++ without diagnostics about undeclared or redefined names.",
+            "SUNDIALS/Boost are a hand-written shim; a diagnostic about a shim name is a harness error. Only name diagnostics are judged. PYMODULE and CUDA code are not compiled.", "DESIGN.md §2 C10"),
 }
 
 NOT_YET = {
